@@ -72,6 +72,13 @@ def main():
             bad += 1
             continue
         own = det.get(prop)
+        status = json.load(open(f"{SEEDED}/{name}/meta.json")).get("status", "breaking")
+        if status == "benign-after-fix":
+            viol = sorted(k for k, v in det.items() if v["rc"] == 1)
+            lines.append(f"| {name} | {prop} (harmless since a later fix) | {'**FALSE ALARM** ' + ', '.join(viol) if viol else 'silent (expected)'} | | |")
+            print(f"{name:8s} {prop} now benign: {'FALSE ALARM ' + str(viol) if viol else 'silent'}")
+            bad += 1 if viol else 0
+            continue
         own_s = ", ".join(own["rules"]) if own and own["rc"] == 1 else "**MISSED**"
         if not (own and own["rc"] == 1):
             bad += 1
